@@ -46,12 +46,13 @@ ASSUMPTIONS = [
 ]
 
 # where the handler can be blocked (field fpc of the recorder): a reorganisation is aimed at each of them
-GATES = ["q_cp", "r_cfh", "r_flt", "r_blk", "cp_wait", "u_cfh", "u_flt", "u_blk", "retry", "tip", ""]
+GATES = {"quick": ["q_cp", "r_cfh", "r_flt", "r_blk", "cp_wait", "u_cfh", "retry", "tip"],
+         "thorough": ["q_cp", "r_cfh", "r_flt", "r_blk", "cp_wait", "u_cfh", "u_flt", "u_blk", "retry", "tipz", "tip", ""]}
 
 TIERS = {
     # runs per core scenario without / with environment events, sampled scenarios, steps per run
-    "quick": dict(maxh=5, plain=1, eventful=6, sampled=6, steps=60, reorgs=2, extends=1, workers=4),
-    "thorough": dict(maxh=7, plain=2, eventful=14, sampled=40, steps=120, reorgs=3, extends=2, workers=4),
+    "quick": dict(maxh=5, plain=1, eventful=6, sampled=6, steps=60, reorgs=2, extends=1, workers=4, worlds=1),
+    "thorough": dict(maxh=7, plain=2, eventful=14, sampled=30, steps=120, reorgs=3, extends=2, workers=4, worlds=2),
 }
 
 
@@ -64,7 +65,7 @@ def scenarios(tier, seed):
     for (asg, bt, ft, hard) in base:
         a = [{"kind": k, "k": h} for (k, h) in asg]
         ts = [i + 1 for i, (k, _) in enumerate(asg) if k == "T"]
-        gates = list(GATES)
+        gates = list(GATES[tier])
         rng.shuffle(gates)
         for r in range(cfg["plain"] + cfg["eventful"]):
             ev = r >= cfg["plain"]
@@ -72,14 +73,14 @@ def scenarios(tier, seed):
             # the first reorganisation of an eventful run is aimed at one gate (each scenario walks through the
             # gates in a seeded order), further events fall at random moments
             gate = gates[(r - cfg["plain"]) % len(gates)] if ev else ""
+            depth = rng.choice([1, 2, 2, 3]) if ev else 0
             out.append({"id": len(out), "asg": a, "bt": bt, "ft": ft, "hard": hard,
                         "seed": rng.randrange(1 << 40),
                         "reorgs": rng.randint(1, cfg["reorgs"]) if ev else 0,
                         "extends": rng.randint(0, cfg["extends"]) if ev else 0,
                         "late": late, "late_at": rng.randint(2, 9) if late else 0,
                         "p_event": rng.choice([0.05, 0.15, 0.3]) if ev else 0.0,
-                        "ev_gate": gate, "ev_depth": rng.choice([1, 2, 2, 3]) if ev else 0,
-                        "ev_n": rng.choice([1, 2, 2]) if ev else 0,
+                        "ev_gate": gate, "ev_depth": depth, "ev_n": max(1, depth + rng.choice([0, 0, 0, 1, 1, -1])),
                         "max_steps": cfg["steps"]})
     return out
 
@@ -158,30 +159,40 @@ def run_slice(prop_id, tier, seed, replay=None):
         if replay:
             tr = json.load(open(replay))["trace"]
             scen = [dict(tr["free"], id=0)]
-            maxh = max([cfg["maxh"], scen[0]["bt"]] + [len(s["obs"]["B"]) - 1 for s in tr["steps"]])
+            maxh = tr.get("maxh") or max([cfg["maxh"], scen[0]["bt"]] + [len(s["obs"]["B"]) - 1 for s in tr["steps"]])
             seed = tr.get("world_seed", seed)
+            batches = [(seed, scen)]
         else:
-            scen = scenarios(tier, seed)
+            # one chain universe (split of the intervals, lie positions) per world seed
             maxh = cfg["maxh"]
-        pf = os.path.join(sc, "scen.ndjson")
-        with open(pf, "w") as f:
-            for s in scen:
-                f.write(json.dumps(s, separators=(",", ":")) + "\n")
+            batches = [(ws, scenarios(tier, ws)) for ws in [seed + 1000003 * k for k in range(cfg["worlds"])]]
         binary = build(sc)
         t1 = time.time()
-        observed, _ = family.run_driver(binary, "TestVerifCFSyncFree", pf, os.path.join(sc, "obs.ndjson"), sc,
-                                        env_extra={"VERIF_SEED": str(seed), "VERIF_CFS_MAXH": str(maxh),
-                                                   "VERIF_FR_WORKERS": str(cfg["workers"]),
-                                                   "GOMAXPROCS": str(cfg["workers"])},
-                                        timeout=600 if tier == "quick" else 3000)
+        observed = []
+        for bi, (ws, scen) in enumerate(batches):
+            pf = os.path.join(sc, "scen%d.ndjson" % bi)
+            with open(pf, "w") as f:
+                for s in scen:
+                    s["id"] += len(observed)
+                    f.write(json.dumps(s, separators=(",", ":")) + "\n")
+            obs, _ = family.run_driver(binary, "TestVerifCFSyncFree", pf, os.path.join(sc, "obs%d.ndjson" % bi), sc,
+                                       env_extra={"VERIF_SEED": str(ws), "VERIF_CFS_MAXH": str(maxh),
+                                                  "VERIF_FR_WORKERS": str(cfg["workers"]),
+                                                  "GOMAXPROCS": str(cfg["workers"])},
+                                       timeout=600 if tier == "quick" else 3000)
+            for t in obs:
+                t["steps"] = t["steps"] or []
+                t["world_seed"], t["maxh"] = ws, maxh
+            observed += obs
         t_drv = time.time() - t1
         errs = [t for t in observed if t.get("error")]
         if errs:
             raise core.MachineryError("free-running CFSync driver: %d executions ended in a driver error, e.g. %s"
                                       % (len(errs), errs[0]["error"][:1500]))
-        for t in observed:
-            t["steps"] = t["steps"] or []
-            t["world_seed"] = seed
+        spins = [t for t in observed if t["info"].get("end") == "spin"]
+        if spins:
+            print("free-running cfHandler: %d executions in which the handler never came to rest (cut after %s "
+                  "observation points; not judged as a violation of %s)" % (len(spins), "40000", prop_id), file=sys.stderr)
         verdict = family.judge([SPEC], "CFSyncProps", PROPS[prop_id], prop_id, observed, label=label)
         # code -> specification: every trace must be a behaviour of CFSync.tla
         consts = dict(NP=3, CPI=2, MaxH=maxh, MaxSteps=100000, MaxReorgs=1000, MaxRb=maxh, MaxExt=1000,
@@ -242,6 +253,7 @@ def run_slice(prop_id, tier, seed, replay=None):
             "reorganisations": sum(t["info"].get("reorgs", 0) for t in observed),
             "header_batches": sum(t["info"].get("batches", 0) for t in observed),
             "late_peers": sum(1 for t in observed if t["free"].get("late")),
+            "chain_universes": len(batches),
             "environment_events_by_gate": ev_at,
             "steps_where_the_code_panicked": panics, "steps_banning_an_honest_peer": hb,
             "notes": sorted(set(n for t in observed for n in t["info"].get("notes", [])))[:10],
